@@ -25,6 +25,10 @@ func init() {
 	}, runC02)
 
 	addVariants(
+		Variant{ID: "c02-r4-begin-reuses-preallocated-buffer", Prop: "C02", File: "streamer.go",
+			Old: "\tautocommit := true\n\n\tbegin := func() {", New: "\tautocommit := true\n\ttranBuf := make([]*StreamEvent, 0, 10)\n\n\tbegin := func() {",
+			Old2: "\t\ttranEvents = make([]*StreamEvent, 0, 10)\n", New2: "\t\ttranEvents = tranBuf[:0]\n",
+			Expect: "C02-R4 begin-write[buffer]"},
 		Variant{ID: "c02-r2-rows-unguarded", Prop: "C02", File: "streamer.go",
 			Old:    "\t\t\ttranEvents = append(tranEvents, tranEvent)\n\t\t\tif autocommit {\n\t\t\t\tif err = commit(ev); err != nil {\n\t\t\t\t\treturn pos, newError(err).msgf(\"parseEvents commit fail in UpdateRows event\")\n\t\t\t\t}\n\t\t\t}\n",
 			New:    "\t\t\ttranEvents = append(tranEvents, tranEvent)\n\t\t\t{\n\t\t\t\tif err = commit(ev); err != nil {\n\t\t\t\t\treturn pos, newError(err).msgf(\"parseEvents commit fail in UpdateRows event\")\n\t\t\t\t}\n\t\t\t}\n",
@@ -581,9 +585,8 @@ func c02R4(a *A, r *Roles) {
 	for _, s := range r.Tran.stores() {
 		if s.Fn == r.Begin {
 			v := s.val()
-			_, isSlice := v.(*ssa.Slice)
-			_, isMk := v.(*ssa.MakeSlice)
-			fresh := (isSlice || isMk) && s.block().Dominates(returnsOf(r.Begin)[0].Block())
+			// a make, a literal, or an in-package constructor of one - not a window of a slice that lives on
+			fresh := freshSlice(v, 0) && !isNilConst(strip(v)) && s.block().Dominates(returnsOf(r.Begin)[0].Block())
 			a.check(fresh, rule, "begin-write[buffer]", w.posOf(s.instr()), "fresh buffer installed", "begin does not install a fresh buffer on every path")
 			okBuf = okBuf || fresh
 		}
